@@ -11,6 +11,12 @@ import math
 from . import core, refmodel, universe as U
 
 KINDS = ["ideal_iso", "ideal_noniso", "nonideal_iso", "nonideal_noniso"]
+TRACE_BUDGET = 5000
+
+
+def is_slow(exc):
+    from . import solver as _solver
+    return isinstance(exc, (_solver.Budget, _solver.Lasso))
 IDEAL = {"ideal_iso", "ideal_noniso"}
 ISO = {"ideal_iso", "nonideal_iso"}
 
@@ -61,7 +67,11 @@ class Setup:
                     pair.append(perm)
                 self.init_perm = tuple(pair)
             self.fit_kwargs = dict(c.get("fit_kwargs", {}))
-        self.pv = U.Pervaporation(membrane=self.membrane, mixture=self.mixture)
+        # the observing subclass is semantically transparent.  Trace checks do not wait for flux calculations that need more
+        # than TRACE_BUDGET driving-force evaluations (near-equilibrium states run into the library's bound of 1e5
+        # iterations, 3-5 s each): such a call raises solver.Budget and the case is counted as not judged (C10 owns those)
+        from . import solver as _solver
+        self.pv = _solver.ObservedPV(membrane=self.membrane, mixture=self.mixture).observe(budget=TRACE_BUDGET, detect=False)
         if c.get("budget"):
             # twin checks only: a flux calculation needing more than `budget` evaluations raises solver.Budget
             # (an Exception), which those checks treat like any other raise: the pair is not judged
@@ -311,6 +321,8 @@ def justify_raise(setup, exc):
         time_j = j * setup.dt
     st, flux = setup.solver(t, x, perms)
     if st != "ok":
+        if is_slow(flux):
+            return "undecided", "flux calculation at state %d needs more than %d evaluations" % (j, TRACE_BUDGET), j
         return "justified", "standalone flux solver raises at state %d: %r" % (j, flux), j
     flux = (float(flux[0]), float(flux[1]))
     if not all(math.isfinite(f) for f in flux):
